@@ -28,8 +28,11 @@ def parseSchema (dsl : Bytes) : Option (Schema × List LTy) :=
 def optBytes (s : String) : Option (Option Bytes) :=
   if s == "-" then some none else (Hex.dec s).map some
 
-def parseOpts (wd : String) : POpts :=
-  { tagAll := wd == "all-tag", tagImpl := wd == "impl-tag" }
+/-- `<wd>` or `single:<wd>` (print without LYD_PRINT_WITHSIBLINGS) -/
+def parseOpts (wd0 : String) : POpts :=
+  let single := wd0.startsWith "single:"
+  let wd := if single then (wd0.drop 7).toString else wd0
+  { tagAll := wd == "all-tag", tagImpl := wd == "impl-tag", withSiblings := !single }
 
 /-- annotation table: `;`-separated `<module-hex>/<revision-hex | ->/<name-hex>/<type token>`, `-` = none -/
 def parseAnnots (s : String) : Option (List Annot) :=
